@@ -11,7 +11,7 @@ from .. import framework as fw
 from ..gen import damage
 from ..oracle import cstread
 
-GEN_TABLES = ("gate",)
+GEN_TABLES = ("gate", "cli_test", "cli_set", "cli_rm")
 
 
 def run(ctx: fw.Ctx):
@@ -128,6 +128,16 @@ def cli_test(ctx: fw.Ctx, texts):
                 if pr.stdout != "" or pr.returncode == 0:
                     ctx.fail({"clause": "cli-edit"}, {"text": t, "args": args, "stdout": pr.stdout, "exit": pr.returncode},
                              f"nima {args} on erroneous {t!r}: stdout {pr.stdout!r} exit {pr.returncode}")
+                else:
+                    # correspondence with C07.cli_set_refused / cli_rm_refused (model: `tracebackRes .value`,
+                    # i.e. silence, exit status 1, ValueError on stderr); a difference is a broken tie, not
+                    # by itself a violation (the property only asks for a loud refusal)
+                    ctx.count("cli_edit_corr")
+                    last = (pr.stderr.strip().splitlines() or [""])[-1]
+                    if pr.returncode != 1 or not last.startswith("ValueError"):
+                        ctx.tie_break("correspondence", "C07.cli_set_refused/cli_rm_refused: model says exit 1 + ValueError",
+                                      request={"text": t, "args": args}, implementation={"exit": pr.returncode, "stderr_last": last[:200]},
+                                      model={"exit": 1, "raised": "ValueError"})
         # a VALUE that is not exactly one well-formed expression is refused by the command line too
         for val in ["2;", "[ 1 2 ];", "\"2.0\";", " { a = 1; }; ", "1 +", "", "2;;", "a = 1;"]:
             for args in (["set", "a", val], ["set", "zz.k", val]):
